@@ -47,9 +47,11 @@ CLAIMS = {
 
  "C15": ("Structural necessary conditions of correct, total parameter parsing: decoders convert panics to errors, every bit-reader result depends on the buffer, emulation-prevention removal precedes parsing, the dimension/frame-rate accessors read every syntax element the standards define them from and the decoders parse those elements from the stream, stream metadata taken from the decoded parameter sets. Does not decide numeric equality with the standards.",
          "SSA data-dependence (interprocedural) + dominance", "DESIGN.md §3 C15"),
+
+ "C16": ("PARTIAL: the property itself (language equivalence of the pattern matcher over all pattern/path pairs) is value-level and is NOT decided. Decided are structural necessary conditions around the matcher: push/pull matcher selection by right, grant only on some pattern's match, '*' default only for administrators with an empty right, ';' splitting, case folding on both sides, wildcard literals and their compile-time handling, the two segment-count guards.",
+         "SSA path-sensitive guard facts + constant evaluation (partial; matcher semantics not decided)", "DESIGN.md §3 C16, §4"),
 }
 NA = {
- "C16": "pure input/output language equivalence of the pattern matcher over all pattern/path pairs: truth lives in string values, no structural clause implies it; deciding it needs exhaustive evaluation (execution), a different technique family",
 }
 ALL = ["C%02d" % i for i in range(1, 21)]
 NOT_BUILT = "no static rule built yet for this property in this round (see DESIGN.md §6); not claimed"
